@@ -538,12 +538,9 @@ func TestVerif_C13_MaxStreams(t *testing.T) {
 	const P, Q = "C13", "C17"
 	r := vk.Start(t, "c13_maxstreams", "exploration", P, Q)
 	defer r.Finish()
-	depth := r.Pick(5, 7)
-	inits := []int{1, 2}
-	if r.Thorough() {
-		inits = []int{c13InitNone, 0, 1, 2, 3}
-	}
-	rule := fmt.Sprintf("every event history of length %d (the oracle runs after every event, so all shorter histories are covered as prefixes) for each initial MAX_CONCURRENT_STREAMS in %v, over the alphabet {newStream (async, <=%d calls), server trailers END_STREAM on the k-th open stream, server RST_STREAM on it, application Close(err) of it, ctx-cancel of the k-th parked NewStream, server SETTINGS(MAX_CONCURRENT_STREAMS in {0,1,2,3} != last advertised), server GOAWAY(2^31-1), transport Close}, inapplicable events pruned; real http2Client against a scripted raw server, one synctest bubble per history, run to quiescence after every event", depth, inits, c13MaxCalls)
+	depth := r.Pick(6, 8)
+	inits := []int{c13InitNone, 0, 1, 2, 3}
+	rule := fmt.Sprintf("every event history of length %d (the oracle runs after every event, so all shorter histories are covered as prefixes) for each initial MAX_CONCURRENT_STREAMS in %v (-1 = none advertised), over the alphabet {newStream (async, <=%d calls), server trailers END_STREAM on the k-th open stream, server RST_STREAM on it, application Close(err) of it, ctx-cancel of the k-th parked NewStream, server SETTINGS(MAX_CONCURRENT_STREAMS in {0,1,2,3} != last advertised), server GOAWAY(2^31-1), transport Close}, inapplicable events pruned; real http2Client against a scripted raw server, one synctest bubble per history, run to quiescence after every event", depth, inits, c13MaxCalls)
 	r.Rule(P, rule+"; non-trivial = a history in which a NewStream call was parked at some quiescent point or the limit was lowered below the open count")
 	r.Rule(Q, rule+"; non-trivial = a history in which a parked NewStream call was woken (by a stream close or a SETTINGS raise) or released (ctx cancel, GOAWAY, Close)")
 	for _, p := range []string{P, Q} {
